@@ -464,6 +464,86 @@ example :
     ((irun (fun x => x) [IOp.setFixedH true [a], IOp.cts [a] 1, IOp.setFixedH true [b]]).cts
         (fun x => x) [b] 1).2 = Res.val 1 := by decide +kernel
 
+/-! ## parallel runs -/
+
+theorem reduceMin_spec (a : α) (others : List α) :
+    ∃ m, reduceMin (some a) others = some m ∧ m ∈ a :: others ∧ ∀ o ∈ a :: others, m ≤ o := by
+  induction others generalizing a with
+  | nil => exact ⟨a, rfl, by simp, by simp⟩
+  | cons o rest ih =>
+    have hstep : reduceStep (some a) o = some (if o < a then o else a) := by
+      simp only [reduceStep, extMin, extLt_some_some]
+      by_cases h : o < a <;> simp [h]
+    obtain ⟨m, hm, hmem, hle⟩ := ih (if o < a then o else a)
+    refine ⟨m, by simpa [reduceMin, hstep] using hm, ?_, ?_⟩
+    · simp only [List.mem_cons] at hmem ⊢
+      rcases hmem with h | h
+      · by_cases hc : o < a
+        · right; left; simpa [hc] using h
+        · left; simpa [hc] using h
+      · right; right; exact h
+    · intro x hx
+      simp only [List.mem_cons] at hx
+      have hmin : m ≤ (if o < a then o else a) := hle _ (by simp)
+      rcases hx with rfl | rfl | hx
+      · by_cases hc : o < x
+        · simp only [hc, if_true] at hmin; exact le_trans hmin (le_of_lt hc)
+        · simpa [hc] using hmin
+      · by_cases hc : x < a
+        · simpa [hc] using hmin
+        · simp only [hc, if_false] at hmin; exact le_trans hmin (not_lt.mp hc)
+      · exact hle x (by simp [hx])
+
+/-- the offer of a rank whose `compute_time_step` returned `None` or a value -/
+def offerOf (big : α) : Res α → α
+  | Res.val d => d
+  | _ => big
+
+/-- **Parallel run = minimum over the ranks that have a constraint, else the fixed step.**
+With `offers` = this rank's offer followed by the other ranks' (each a positive step or the
+sentinel): if some rank offers less than the sentinel the result is the smallest offer (so it
+never exceeds what any rank's particles allow); if none does, no criterion applies anywhere
+and the fixed step is kept. -/
+theorem par_is_min_or_fixed (big und : α) (loc : Res α) (others : List α)
+    (hloc : loc = Res.none ∨ ∃ d, loc = Res.val d) :
+    ∃ m, m ∈ offerOf big loc :: others ∧ (∀ o ∈ offerOf big loc :: others, m ≤ o) ∧
+      solverTimestepPar big und loc others = if big ≤ m then Res.val und else Res.val m := by
+  have hoff : parOffer big loc = some (some (offerOf big loc)) := by
+    rcases hloc with rfl | ⟨d, rfl⟩ <;> rfl
+  obtain ⟨m, hm, hmem, hle⟩ := reduceMin_spec (offerOf big loc) others
+  exact ⟨m, hmem, hle, by simp [solverTimestepPar, solverTimestepParOrig, hoff, hm]⟩
+
+/-- no rank has a constraint ⇒ the fixed step is kept (what the `fix:` commit restored) -/
+theorem par_no_rank_constrained_keeps_fixed (big und : α) (others : List α)
+    (h : ∀ o ∈ others, big ≤ o) :
+    solverTimestepPar big und Res.none others = Res.val und := by
+  obtain ⟨m, hmem, _, hres⟩ := par_is_min_or_fixed big und Res.none others (Or.inl rfl)
+  have : big ≤ m := by
+    simp only [offerOf, List.mem_cons] at hmem
+    rcases hmem with rfl | hm
+    · exact le_refl _
+    · exact h m hm
+  rw [hres, if_pos this]
+
+/-- a single rank behaves like the serial solver (steps below the sentinel) -/
+theorem par_single_rank_eq_serial (big und : α) (loc : Res α)
+    (hloc : loc = Res.none ∨ ∃ d, loc = Res.val d ∧ d < big) :
+    solverTimestepPar big und loc [] = solverTimestepOf loc und := by
+  rcases hloc with rfl | ⟨d, rfl, hd⟩
+  · simp [solverTimestepPar, solverTimestepParOrig, parOffer, reduceMin, solverTimestepOf]
+  · simp [solverTimestepPar, solverTimestepParOrig, parOffer, reduceMin, solverTimestepOf,
+      not_le.mpr hd]
+
+/-- the code before the `fix:` commit lost the fixed step: with no constraint on any rank it
+proposed the sentinel itself (the run then jumps to `tf` in one step) -/
+theorem par_orig_loses_fixed_step :
+    solverTimestepParOrig (100 : ℚ) Res.none [100] = Res.val 100 := by decide +kernel
+
+example : solverTimestepPar (100 : ℚ) (1/100) Res.none [100] = Res.val (1/100) ∧
+    solverTimestepPar (100 : ℚ) (1/100) Res.none [3/1000, 100] = Res.val (3/1000) ∧
+    solverTimestepPar (100 : ℚ) (1/100) (Res.val (1/500)) [3/1000, 100] = Res.val (1/500) := by
+  decide +kernel
+
 /-! ## non-vacuity: concrete states meeting the hypotheses (over ℚ) -/
 
 /-- two arrays, the second empty, `h` above one: the step is `cfl·hmin/max` -/
